@@ -181,8 +181,19 @@ func runOptions(o opts, out *Output) {
 		leanBase := 0
 		for b := 0; b < nb; b++ {
 			n := 1 + r.Intn(6)
+			// a quarter of the histories open with an all-zero batch (typed zeros everywhere): the optional columns are still
+			// absent, what is decoded must not depend on when they appear
+			g.Zero = c%4 == 3 && b == 0
+			if g.Zero {
+				n += 6
+				stats["zero_opening_batches"]++
+			}
 			data := genAnyN(g, r, sig, n)
-			if c%4 == 2 && b == 1 {
+			zero := g.Zero
+			g.Zero = false
+			if zero {
+				// keep the all-zero batch
+			} else if c%4 == 2 && b == 1 {
 				// every dictionary column of the main record grows past 255 entries in this one batch
 				data = distinctBatch(sig, 300, 1000)
 			} else if r.Chance(12) {
